@@ -46,6 +46,10 @@ static void h_event(void* p, IMasterConnection con, CS104_PeerConnectionEvent ev
     pthread_mutex_unlock(&mx);
 }
 
+/* connection request callback: turns away request number `deny` (1-based, counted over the process), admits all others */
+static int deny = 0, nreq = 0;
+static bool h_request(void* p, const char* ip) { (void) p; (void) ip; int n = __sync_add_and_fetch(&nreq, 1); return n != deny; }
+
 static int count_ev(int peer, int ev)
 {
     int n = 0;
@@ -73,7 +77,7 @@ static int used_slots(void)
 
 int main(void)
 {
-    int mode = 0, conns = 1, startdt = 0, rounds = 1, maxconn = 0;
+    int mode = 0, conns = 1, startdt = 0, rounds = 1, maxconn = 0, late = 0;
     char line[256];
     setvbuf(stdout, NULL, _IOLBF, 0);
     if (!fgets(line, sizeof line, stdin)) return 0;
@@ -82,6 +86,7 @@ int main(void)
         if (sscanf(t, "%31[^=]=%d", k, &v) != 2) continue;
         if (!strcmp(k, "mode")) mode = v; else if (!strcmp(k, "conns")) conns = v; else if (!strcmp(k, "startdt")) startdt = v;
         else if (!strcmp(k, "rounds")) rounds = v; else if (!strcmp(k, "maxconn")) maxconn = v;
+        else if (!strcmp(k, "deny")) deny = v; else if (!strcmp(k, "late")) late = v;
     }
     signal(SIGALRM, on_alarm); alarm(60);
     Sim_setTime(1000000);
@@ -89,6 +94,7 @@ int main(void)
     CS104_Slave_setServerMode(slave, (CS104_ServerMode) mode);
     if (maxconn > 0) CS104_Slave_setMaxOpenConnections(slave, maxconn);
     CS104_Slave_setConnectionEventHandler(slave, h_event, NULL);
+    if (deny > 0) CS104_Slave_setConnectionRequestHandler(slave, h_request, NULL);
     int limit = maxconn > 0 ? maxconn : CONFIG_CS104_MAX_CLIENT_CONNECTIONS;
     static const uint8_t STARTDT_ACT[6] = {0x68, 4, 7, 0, 0, 0};
 
@@ -98,16 +104,17 @@ int main(void)
         usleep(3000);       /* let the listener thread make a few rounds on the table it finds */
         int o0 = CS104_Slave_getOpenConnections(slave);
         if (o0 != 0) printf("bad open-after-restart %d open connections reported right after start number %d, before anybody connected (%d slots in use)\n", o0, r + 1, used_slots());
-        int first = npeers;
+        int first = npeers; int conns_denied = 0;
         for (int i = 0; i < conns && npeers < MAXP; i++) {
             char a[64]; snprintf(a, sizeof a, "10.0.0.%d:%d", 1 + npeers % 200, 3000 + npeers);
             pthread_mutex_lock(&mx); peers[npeers] = Sim_newPeer(a); npeers++; pthread_mutex_unlock(&mx);
             /* one at a time: the listener thread admits or turns away each before the next is queued */
             int want = (i + 1 < limit ? i + 1 : limit);
+            if (deny > 0) { WAIT_FOR(peers[npeers - 1]->destroyed || count_ev(npeers - 1, 0) > 0); if (peers[npeers - 1]->destroyed && count_ev(npeers - 1, 0) == 0) { conns_denied++; } }
             WAIT_FOR(peers[npeers - 1]->destroyed || count_ev(npeers - 1, 0) > 0);
             (void) want;
         }
-        int expect = conns < limit ? conns : limit;
+        int expect = (conns - conns_denied) < limit ? (conns - conns_denied) : limit;
         WAIT_FOR(count_all(0, first) >= expect && CS104_Slave_getOpenConnections(slave) - o0 == expect);
         int opened = count_all(0, first);
         int on = CS104_Slave_getOpenConnections(slave);
@@ -131,6 +138,16 @@ int main(void)
             WAIT_FOR(count_ev(victim, 1) > 0 && CS104_Slave_getOpenConnections(slave) == on - 1);
             if (count_ev(victim, 1) != 1) printf("bad closed-missing p%d closed by its peer: CLOSED reported %d times\n", victim, count_ev(victim, 1));
             if (CS104_Slave_getOpenConnections(slave) != on - 1) printf("bad open-count %d open connections reported after one of %d was closed by its peer\n", CS104_Slave_getOpenConnections(slave), on);
+        }
+        /* (late=1) somebody was turned away earlier in this round (limit reached, or the callback said no); now there is room and the
+           callback agrees: a further peer must be admitted -- a refusal is about that one attempt */
+        if (late && npeers < MAXP && CS104_Slave_getOpenConnections(slave) < limit) {
+            char a[64]; snprintf(a, sizeof a, "10.0.1.%d:%d", 1 + npeers % 200, 3000 + npeers);
+            pthread_mutex_lock(&mx); peers[npeers] = Sim_newPeer(a); npeers++; pthread_mutex_unlock(&mx);
+            WAIT_FOR(peers[npeers - 1]->destroyed || count_ev(npeers - 1, 0) > 0);
+            if (count_ev(npeers - 1, 0) == 0)
+                printf("bad not-admitted-after-refusal a peer connecting while %d of %d allowed connections are open (callback agreeing) was turned away in round %d; earlier in the round %d attempts were refused\n",
+                       CS104_Slave_getOpenConnections(slave), limit, r, (conns - opened) > 0 ? conns - opened : 0);
         }
         CS104_Slave_stop(slave);
         int os = CS104_Slave_getOpenConnections(slave);
